@@ -21,6 +21,9 @@ type reqParams struct {
 	LateReply  bool // responder sends one more reply after the requester is done (via Quiesce)
 	LateResult bool // the requester lets more than the timeout pass (virtual sleep) before it calls Result: the reply is waiting by then
 	Second     bool // every requester issues a second request afterwards, to an actor that never replies: it must time out
+	Poke       bool // with Second: behind the second request the requester sends the silent actor a sender-less "poke", which it answers with Respond - that reply has no addressee and must not reach the pending request
+	ViaActor   bool // the request is issued with Context.Request from inside an actor that was spawned WithContext(a cancelled context): the actor's own context has nothing to do with the request's timeout
+	Hedge      bool // the target forwards the request to two replicas, both Respond: two replies from two goroutines race for one response PID - one wins, the other is a dead letter, nobody blocks
 }
 
 func (p reqParams) String() string {
@@ -30,6 +33,15 @@ func (p reqParams) String() string {
 	}
 	if p.Second {
 		s += "second"
+	}
+	if p.Poke {
+		s += "poke"
+	}
+	if p.ViaActor {
+		s += "viaactor"
+	}
+	if p.Hedge {
+		s += "hedge"
 	}
 	return s
 }
@@ -58,8 +70,15 @@ func engRequest(variants []reqParams) vsched.Instance {
 	body := func() {
 		p = variants[chooseVariant(len(variants))]
 		k = NewKit()
+		var replicas []*actor.PID
 		echo := func(k *Kit, c *actor.Context, inc int) {
 			if m, ok := c.Message().(reqMsg); ok {
+				if p.Hedge && len(replicas) == 2 && c.PID().ID == "echo/a" {
+					// hand the request on with the ORIGINAL sender (Context.Forward would name the forwarder)
+					c.Engine().SendWithSender(replicas[0], m, c.Sender())
+					c.Engine().SendWithSender(replicas[1], m, c.Sender())
+					return
+				}
 				if p.SlowReply {
 					vsched.Sleep(2 * timeout)
 				}
@@ -79,7 +98,33 @@ func engRequest(variants []reqParams) vsched.Instance {
 		if p.TwoTargets {
 			b = k.E.Spawn(k.Producer("B", echo), "echo", actor.WithID("b"))
 		}
-		silent := k.E.Spawn(k.Producer("S", nil), "silent", actor.WithID("1"))
+		silent := k.E.Spawn(k.Producer("S", func(k *Kit, c *actor.Context, inc int) {
+			if s, ok := c.Message().(string); ok && s == "poke" {
+				c.Respond(reqMsg{9999}) // nobody asked: there is no sender to respond to
+			}
+		}), "silent", actor.WithID("1"))
+		if p.Hedge {
+			replicas = append(replicas, k.E.Spawn(k.Producer("R1", echo), "echo", actor.WithID("r1")), k.E.Spawn(k.Producer("R2", echo), "echo", actor.WithID("r2")))
+		}
+		var asker *actor.PID
+		askerDone := make(chan struct{}, 4)
+		if p.ViaActor {
+			cctx, cancel := context.WithCancel(context.Background())
+			cancel()
+			asker = k.E.Spawn(k.Producer("Q", func(k *Kit, c *actor.Context, inc int) {
+				if m, ok := c.Message().(reqMsg); ok {
+					o := outs[m.N]
+					resp := c.Request(a, reqMsg{m.N}, timeout)
+					o.respPID = pidStr(resp.PID())
+					o.t0 = vsched.VNow()
+					o.got, o.err = resp.Result()
+					o.t1 = vsched.VNow()
+					parts := strings.SplitN(resp.PID().ID, "/", 2)
+					o.regAfter = c.Engine().Registry.GetPID(parts[0], parts[1]) != nil
+					vsched.Send(askerDone, struct{}{})
+				}
+			}), "asker", actor.WithID("1"), actor.WithContext(cctx))
+		}
 		vsched.EndSetup()
 		k.Log = nil
 		outs = make([]*reqOutcome, p.Requesters)
@@ -92,6 +137,11 @@ func engRequest(variants []reqParams) vsched.Instance {
 			vsched.Go("requester", func() {
 				o := &reqOutcome{payload: i}
 				outs[i] = o
+				if p.ViaActor {
+					k.E.Send(asker, reqMsg{i})
+					vsched.Recv(askerDone)
+					return
+				}
 				resp := k.E.Request(tgt, reqMsg{i}, timeout)
 				o.respPID = pidStr(resp.PID())
 				if p.LateResult {
@@ -103,7 +153,11 @@ func engRequest(variants []reqParams) vsched.Instance {
 				parts := strings.SplitN(resp.PID().ID, "/", 2)
 				o.regAfter = k.E.Registry.GetPID(parts[0], parts[1]) != nil
 				if p.Second {
-					o.got2, o.err2 = k.E.Request(silent, reqMsg{500 + i}, timeout).Result()
+					resp2 := k.E.Request(silent, reqMsg{500 + i}, timeout)
+					if p.Poke {
+						k.E.Send(silent, "poke")
+					}
+					o.got2, o.err2 = resp2.Result()
 					o.did2 = true
 				}
 			})
@@ -176,6 +230,31 @@ func engRequest(variants []reqParams) vsched.Instance {
 			}
 			if o.regAfter {
 				vs = append(vs, V("registry/response-pid-still-registered-after-result", "%s: requester %d: %s", p, i, o.respPID))
+			}
+		}
+		if p.Hedge {
+			for _, o := range outs {
+				if o == nil {
+					continue
+				}
+				n := 0
+				for _, e := range k.Events() {
+					if strings.HasPrefix(e, "DeadLetter("+o.respPID+",") {
+						n++
+					}
+				}
+				// At most one of the two replies can be the result. The surplus one is a dead letter if it arrives
+				// after Result has returned (the response PID is gone); arriving in the window between the first
+				// reply being taken and the PID being unregistered it is dropped without a report, and with reply
+				// and timeout ready at the same moment the timeout may be taken (§5 C11) - neither is excluded by
+				// the property. What is excluded: more reports than surplus replies, and a blocked replier (checked above).
+				max := 1
+				if o.err != nil {
+					max = 2
+				}
+				if n > max {
+					vs = append(vs, V("deadletter/more-dead-letters-than-surplus-replies", "%s: two replicas replied to %s, Result returned (%v, %v): %d dead letters, at most %d possible; events %v", p, o.respPID, o.got, o.err, n, max, k.Events()))
+				}
 			}
 		}
 		if p.LateReply {
